@@ -308,7 +308,7 @@ Section S.
       + destruct (open_section_J R _ J2 F2) as (J3 & F3 & O3).
         set (w3 := with_use_ts (open_cb d) (snd (full_cb w1))) in *.
         destruct (gt_diff32 n (c_psize (w_c w3)) (c_at (w_c w3))); cbn [fst snd].
-        * split; [left; reflexivity|]. split; [exact F3|]. intros _ X. discriminate.
+        * split; [apply J_no_space; exact J3|]. split; [exact F3|]. intros X. discriminate X.
         * split; [exact J3|]. split; [exact F3|]. intros _ X. apply O3. exact X.
     - cbn [fst snd]. split; [exact HJ|]. split; [exact Hf|]. intros _ X. apply Ho. exact X.
   Qed.
@@ -372,10 +372,19 @@ Section S.
     pose proof (reserve_last d w0 n) as T1.
     destruct (fst (reserve d w0 n)) eqn:Ok; cbn [negb] in *.
     - (* space reserved *)
-      left.
       set (w1 := snd (reserve d w0 n)) in *.
       destruct (w_err w1) eqn:E1; [congruence|].
       specialize (O1 eq_refl eq_refl).
+      (* repair of S9: the size is computed again when the reservation moved the position *)
+      destruct (trace_recheck_cases d e args (c_at (w_c we)) w1) as [Crc|[Crc|(_ & a2 & _ & _ & Crc)]];
+        rewrite Crc in *; cbn [fst snd negb] in *.
+      2:{ discriminate He. }
+      2:{ (* does not fit the new packet: discarded, counted once *)
+          right. unfold recheck_discard. split.
+          - eapply J_core; [apply sc_in_ts|reflexivity|]. apply J_no_space. exact J1.
+          - eapply nd_eq_log; [|apply (nd_trans _ _ _ 0 1 (nd_trans _ _ _ 0 0 N0' N1)), nd_no_space].
+            reflexivity. }
+      left.
       unfold trace_ser in *. cbv zeta in *.
       set (w1' := trace_mark d w1) in *.
       assert (Tm : c_last_ts (w_c w1') = c_last_ts (w_c we)).
@@ -423,7 +432,8 @@ Section S.
     | _ => True
     end.
   (* C02's conclusion, used as a premise here: the position is inside the packet when the platform
-     closes it (known findings S9 / S18 are the histories where the generated code breaks this) *)
+     closes it (the former findings S9 / S18, now repaired, were histories where the generated code
+     broke this) *)
   Definition inb (w : world) : Prop := c_open (w_c w) = true -> c_at (w_c w) <= c_psize (w_c w).
 
   (* the records call k adds to what a reader finds (dl), and its discards *)
